@@ -430,6 +430,29 @@ func (tr *Tracer) builtin(st *state, site ssa.Instruction, b *ssa.Builtin, args 
 			}
 			return a.Args[1]
 		}
+		if b.Name() == "len" && a.Kind == KOp && a.Name == "slice" && len(a.Args) >= 3 {
+			// len(x[lo:hi]) with constant bounds; hi defaults to the array length when x is (a pointer to) an array
+			lo, hi, ok := int64(0), int64(-1), true
+			if a.Args[1].Name != "none" {
+				lo, ok = a.Args[1].intConst()
+			}
+			if a.Args[2].Name != "none" {
+				if v, isC := a.Args[2].intConst(); isC {
+					hi = v
+				} else {
+					ok = false
+				}
+			} else if xt := a.Args[0].Typ; xt != nil {
+				if pt, isP := xt.Underlying().(*types.Pointer); isP {
+					if arr, isA := pt.Elem().Underlying().(*types.Array); isA {
+						hi = arr.Len()
+					}
+				}
+			}
+			if ok && hi >= lo && hi >= 0 {
+				return symInt(hi-lo, rt)
+			}
+		}
 		if a.Typ != nil {
 			switch u := a.Typ.Underlying().(type) {
 			case *types.Map, *types.Chan:
